@@ -14,6 +14,48 @@ def gen(tier, rng):
     out = []
     for i, p in enumerate(progs):
         out.append(("random:%d" % i, p + [("dispose", 0)]))      # root disposal closes every history
+    out += cleanup_writes(tier, rng)
+    return out
+
+
+def cleanup_writes(tier, rng):
+    """cleanups that write signals read by the computation that owns them (or by its ancestors / descendants): the write happens
+    while the owner is being disposed or re-run (finding F17)"""
+    out = []
+    k = 0
+    for owner_kind in ("effect", "memo"):
+        for reads in ("get", "getu"):
+            for inner in ("effect", "memo", "signal", "scope", "none"):
+                for where in ("own", "child"):
+                    for trigger in ("dispose_scope", "dispose_owner", "rerun", "dispose_root"):
+                        write = ("oncleanup", 1, [("set", 1, ("add", ("getu", 1), ("lit", 1)))])
+                        kids = []
+                        if inner == "effect":
+                            kids = [("effect", 5, ("body", None, [("oncleanup", 2, [])], ("get", 1)))]
+                        elif inner == "memo":
+                            kids = [("memo", 5, ("body", None, [], ("add", ("get", 1), ("lit", 10))))]
+                        elif inner == "signal":
+                            kids = [("signal", 5, ("lit", 7))]
+                        elif inner == "scope":
+                            kids = [("scope", 5, [("signal", 6, ("lit", 0)), ("oncleanup", 3, [])])]
+                        if where == "own":
+                            body_ss = [write] + kids
+                        else:
+                            body_ss = [("scope", 7, [write])] + kids
+                        ret = (reads, 1) if reads == "get" else ("add", ("getu", 1), ("get", 8))
+                        prog = [("signal", 1, ("lit", 0)), ("signal", 8, ("lit", 0)),
+                                ("scope", 2, [(owner_kind, 3, ("body", None, body_ss, ret))])]
+                        if trigger == "dispose_scope":
+                            prog += [("dispose", 2)]
+                        elif trigger == "dispose_owner":
+                            prog += [("dispose", 3)]
+                        elif trigger == "rerun":
+                            prog += [("set", 8, ("lit", 1)), ("set", 1, ("lit", 50))]
+                        prog += [("set", 1, ("lit", 100)), ("set", 8, ("lit", 5)), ("dispose", 0)]
+                        out.append(("cleanup-writes:%d" % k, prog))
+                        k += 1
+    if tier == "quick":
+        out = rng.sample(out, 120)
     return out
 
 
